@@ -31,6 +31,8 @@ type Op struct {
 	Head  []Task `json:"head,omitempty"`
 	After []Task `json:"after,omitempty"`
 	Tail  []Task `json:"tail,omitempty"`
+	// FilterDuring: the operation another goroutine issues while the Filter callback runs
+	C *Op `json:"c,omitempty"`
 }
 
 type Input struct {
@@ -179,6 +181,57 @@ func Run(in Input) Observation {
 					keep[strconv.Itoa(k)] = true
 				}
 				q.Filter(func(t task.Task) bool { return keep[t.GetId()] })
+			case "FilterDuring":
+				keep := map[string]bool{}
+				for _, k := range op.Keep {
+					keep[strconv.Itoa(k)] = true
+				}
+				done := make(chan task.Task, 1)
+				launched := false
+				launch := func() {
+					launched = true
+					go func() {
+						defer func() {
+							if r := recover(); r != nil {
+								done <- nil
+							}
+						}()
+						var r task.Task
+						c := op.C
+						switch c.Kind {
+						case "AddFirst":
+							q.AddFirst(mk(*c.T))
+						case "AddLast":
+							q.AddLast(mk(*c.T))
+						case "AddAfter":
+							q.AddAfter(strconv.Itoa(c.Id), mk(*c.T))
+						case "AddBefore":
+							q.AddBefore(strconv.Itoa(c.Id), mk(*c.T))
+						case "Remove":
+							r = q.Remove(strconv.Itoa(c.Id))
+						case "RemoveFirst":
+							r = q.RemoveFirst()
+						case "RemoveLast":
+							r = q.RemoveLast()
+						}
+						done <- r
+					}()
+				}
+				q.Filter(func(t task.Task) bool {
+					if !launched {
+						launch()
+						time.Sleep(2 * time.Millisecond) // let the other goroutine reach the queue's lock
+					}
+					return keep[t.GetId()]
+				})
+				if !launched { // empty queue: the callback did not run
+					launch()
+				}
+				select {
+				case ret = <-done:
+				case <-time.After(3 * time.Second):
+					crashed = "the operation issued during Filter did not return within 3s"
+				}
 			case "Start":
 				if !started {
 					q.Start()
@@ -236,6 +289,8 @@ func coqOp(o Op) string {
 		return fmt.Sprintf("Remove %d", o.Id)
 	case "Filter":
 		return "Filter " + core.CoqList(o.Keep, core.CoqN)
+	case "FilterDuring":
+		return "FilterDuring " + core.CoqList(o.Keep, core.CoqN) + " (C" + coqOp(*o.C) + ")"
 	case "Return":
 		return fmt.Sprintf("Return %s %s %s %s", o.St, coqTasks(o.Head), coqTasks(o.After), coqTasks(o.Tail))
 	}
@@ -360,6 +415,32 @@ func (g *gen) sequence(n, dupPct, absentPct int) Input {
 					keep = append(keep, id)
 				}
 			}
+			if g.r.Chance(40) {
+				// another goroutine issues an operation while the Filter callback runs
+				var c Op
+				switch g.r.Intn(7) {
+				case 0:
+					t := g.newTask(&nextId, dupPct, present)
+					present = append(present, t.Id)
+					c = Op{Kind: "AddFirst", T: &t}
+				case 1, 2:
+					t := g.newTask(&nextId, dupPct, present)
+					present = append(present, t.Id)
+					c = Op{Kind: "AddLast", T: &t}
+				case 3:
+					t := g.newTask(&nextId, dupPct, present)
+					c = Op{Kind: "AddAfter", Id: g.pickId(present, absentPct), T: &t}
+					present = append(present, t.Id)
+				case 4:
+					c = Op{Kind: "Remove", Id: g.pickId(present, absentPct)}
+				case 5:
+					c = Op{Kind: "RemoveFirst"}
+				default:
+					c = Op{Kind: "RemoveLast"}
+				}
+				ops = append(ops, Op{Kind: "FilterDuring", Keep: keep, C: &c})
+				continue
+			}
 			ops = append(ops, Op{Kind: "Filter", Keep: keep})
 		default:
 			st := []string{"Success", "Success", "Success", "Keep", "Fail", "Repeat"}[g.r.Intn(6)]
@@ -387,6 +468,11 @@ func Corpus() []Input {
 		// after-tasks of a task that was removed while it was being handled
 		{Ops: []Op{{Kind: "Start"}, {Kind: "AddLast", T: tp(1, 1)}, {Kind: "AddLast", T: tp(2, 2)}, {Kind: "Remove", Id: 1},
 			{Kind: "Return", St: "Success", After: []Task{{3, 3}, {4, 4}}, Head: []Task{{5, 5}}, Tail: []Task{{6, 6}}}}},
+		// atomicity: an operation issued by another goroutine while a Filter callback runs takes effect after the Filter
+		{Ops: []Op{{Kind: "AddLast", T: tp(1, 1)}, {Kind: "AddLast", T: tp(2, 2)}, {Kind: "AddLast", T: tp(3, 3)},
+			{Kind: "FilterDuring", Keep: []int{1, 3}, C: &Op{Kind: "AddLast", T: tp(4, 4)}}}},
+		{Ops: []Op{{Kind: "AddLast", T: tp(1, 1)}, {Kind: "AddLast", T: tp(2, 2)}, {Kind: "AddLast", T: tp(3, 3)},
+			{Kind: "FilterDuring", Keep: []int{1, 2}, C: &Op{Kind: "Remove", Id: 1}}}},
 		// plain result application
 		{Ops: []Op{{Kind: "Start"}, {Kind: "AddLast", T: tp(1, 1)}, {Kind: "AddLast", T: tp(2, 2)},
 			{Kind: "Return", St: "Success", After: []Task{{3, 3}, {4, 4}}, Head: []Task{{5, 5}, {6, 6}}, Tail: []Task{{1, 7}}}}},
@@ -495,6 +581,6 @@ func Gen(r *core.Rng, tier string) ([]core.In[Input], bool) {
 
 var Driver = core.Driver[Input, Observation]{
 	Spec: core.Spec{Property: "C05", Imports: []string{"C05_Model", "C05_Spec", "C05_Corr"}, Corr: "C05_Corr", Triggers: []string{"F14"}, ShrinkKey: "ops",
-		Rule: "op sequences on a fresh TaskQueue (public API + started worker with a scripted handler); streams: corpus, random (fresh ids, 12% arbitrary anchors), trigger (40% reused ids), exhaustive (thorough: Start + all sequences of <=3 ops over a 19-op alphabet); non-trivial = >=3 ops of >=2 kinds with a non-empty queue at some point; distinct = distinct op sequence text"},
+		Rule: "op sequences on a fresh TaskQueue (public API + started worker with a scripted handler); streams: corpus, random (fresh ids, 12% arbitrary anchors), trigger (40% reused ids), exhaustive (thorough: Start + all sequences of <=3 ops over a 19-op alphabet); 40% of the Filter operations have another goroutine issue an add/remove while the callback runs (FilterDuring: atomicity of the operations); non-trivial = >=3 ops of >=2 kinds with a non-empty queue at some point; distinct = distinct op sequence text"},
 	Gen: Gen, Run: Run, Render: Render, PerShard: 1000, Workers: 8, CaseTimout: 8 * time.Second,
 }
